@@ -206,6 +206,13 @@ def more_cases(tier, seed):
 
 def explicit_all(tier, seed):
     yield from explicit(tier, seed)
+    # oversized (summarised) blocks that completed early with branches still running, then replayed in later invocations: whatever the
+    # rebuild does with a branch that is only STARTED in the history, nothing may be recorded under the long-completed block
+    from checks.c16 import explicit as c16_cases
+
+    for c in c16_cases(tier, seed):
+        if "early-completion" in c["label"]:
+            yield dict(c, label="c10-oversized-" + c["label"])
     yield from inflight_cases(tier, seed)
     yield from resumed_cases(tier, seed)
     yield from more_cases(tier, seed)
